@@ -255,8 +255,22 @@ def check_slot_indices(ctx):
                     gens = cur.generators if isinstance(cur, (ast.GeneratorExp, ast.ListComp)) else [cur]
                     for g in gens:
                         tg, it = g.target, g.iter
-                        if isinstance(tg, ast.Tuple) and tg.elts and isinstance(tg.elts[0], ast.Name) and tg.elts[0].id == idx and \
-                                isinstance(it, ast.Call) and call_name(it) == 'enumerate' and it.args:
+                        if not (isinstance(tg, ast.Tuple) and tg.elts and isinstance(tg.elts[0], ast.Name) and tg.elts[0].id == idx):
+                            continue
+                        # `for idx, x in PAIRS` where PAIRS = [(i, x) for i, x in enumerate(<field>) if ...]: the pairs keep the index of the
+                        # unfiltered enumeration (filtering after enumerate is fine, enumerating after filtering is not)
+                        if isinstance(it, ast.Name):
+                            pairs_name = it.id
+                            for x in walk_no_nested(fi.node):
+                                v = x.value if isinstance(x, (ast.Assign, ast.NamedExpr)) else None
+                                t0 = (x.targets[0] if isinstance(x, ast.Assign) else x.target) if v is not None else None
+                                if isinstance(t0, ast.Name) and t0.id == pairs_name and isinstance(v, (ast.ListComp, ast.GeneratorExp)) and \
+                                        isinstance(v.elt, ast.Tuple) and v.elt.elts and isinstance(v.elt.elts[0], ast.Name) and len(v.generators) == 1:
+                                    g2 = v.generators[0]
+                                    if isinstance(g2.target, ast.Tuple) and g2.target.elts and isinstance(g2.target.elts[0], ast.Name) and \
+                                            g2.target.elts[0].id == v.elt.elts[0].id:
+                                        it = g2.iter
+                        if isinstance(it, ast.Call) and call_name(it) == 'enumerate' and it.args:
                             src = it.args[0]
                             if isinstance(src, ast.Attribute) and src.attr == field:
                                 ok, how = True, f'enumerate({norm(src)})'
